@@ -229,7 +229,7 @@ fn cmd_worker(args: &[String], engine_for: EngineFor) {
         if unit.isolated || unit.id % sn != si || done.contains(&unit.id) || only.is_some_and(|o| o != unit.id) {
             continue;
         }
-        let iso = IsoCtx { args, shard, first_unit: first_unit.get_or_insert(unit.id).to_owned() };
+        let iso = IsoCtx { viol_path: arg(args, "--viol").map(|s| s.to_string()), args, shard, first_unit: first_unit.get_or_insert(unit.id).to_owned() };
         let res = run_unit(eng.as_ref(), &unit, progress.as_ref(), &skip, distinct.as_mut(), max_viol_per_unit, &iso);
         writeln!(out, "{}", serde_json::to_string(&res).unwrap()).expect("write result");
         out.flush().ok();
@@ -237,6 +237,9 @@ fn cmd_worker(args: &[String], engine_for: EngineFor) {
 }
 
 struct IsoCtx<'a> {
+    /// violations are also appended here as they happen: a unit whose later case kills the
+    /// worker never writes its result line, its earlier violations must not be lost with it
+    viol_path: Option<String>,
     args: &'a [String],
     shard: &'a str,
     /// first unit this worker process ran (the start of its path)
@@ -316,6 +319,11 @@ fn run_unit(eng: &dyn Engine, unit: &UnitSpec, progress: Option<&File>, skip: &[
                     // where on the worker's path the case ran: lets the driver replay the path when
                     // the violation needs what the process did before
                     c.extra.insert("_path".into(), serde_json::json!({"shard": iso.shard, "from_unit": iso.first_unit, "unit": unit.id, "sub": sub}));
+                }
+                if let Some(p) = &iso.viol_path {
+                    if let Ok(mut f) = OpenOptions::new().create(true).append(true).open(p) {
+                        let _ = writeln!(f, "{}", serde_json::json!({"unit": unit.id, "violation": v, "case": c}));
+                    }
                 }
                 res.violations.push((v, c));
             }
